@@ -129,14 +129,16 @@ Qed.
 Lemma size_check_ok off vend N : off + Z.of_nat N <= vend -> size_check off vend N = true.
 Proof.
   intros H. unfold size_check, size_t_of_ptrdiff.
-  destruct (Z.ltb_spec (vend - off) 0); [lia|]. apply Z.leb_le. lia.
+  destruct (Z.ltb_spec (vend - off) 0); [lia|].
+  apply andb_true_iff. split; apply Z.leb_le; lia.
 Qed.
 
 Lemma size_check_short off vend N :
   off <= vend < off + Z.of_nat N -> size_check off vend N = false.
 Proof.
   intros H. unfold size_check, size_t_of_ptrdiff.
-  destruct (Z.ltb_spec (vend - off) 0); [lia|]. apply Z.leb_gt. lia.
+  destruct (Z.ltb_spec (vend - off) 0); [lia|].
+  apply andb_false_iff. right. apply Z.leb_gt. lia.
 Qed.
 
 Lemma data_ok checks mem off vend N :
